@@ -279,6 +279,24 @@ def mux_check(prop, tier, seed, replay):
                 out = os.path.join(work, f"{mode}_{k}.ndjson")
                 _gen(bin_path, mode, seed * 7919 + k, count, steps, out)
                 batches.append((mode, out))
+            # 2b. specification -> implementation replay: behaviours of the specification (TLC simulation of
+            #     MC_MuxSched.tla at the grain of the simulator) executed as schedules on the real code
+            if prop in ("C02", "C03", "C04", "C05", "C06", "C07", "C08", "C11"):
+                import tlc_sched
+                nb = 120 if tier == "quick" else 2500
+                sch, nstates = tlc_sched.schedules(nb, 70, seed)
+                if not sch:
+                    raise ToolError("TLC simulation produced no schedules")
+                sj = os.path.join(work, "tlc_sched.json")
+                json.dump(sch, open(sj, "w"))
+                out = os.path.join(work, "tlc_sched.ndjson")
+                rc, o = vlib.run([bin_path, "script", sj, out], timeout=3000)
+                if rc not in (0, 3):
+                    raise ToolError("mux_sim script failed on TLC-generated schedules: " + o[-400:])
+                states += nstates
+                transitions += nstates
+                mc_runs.append(dict(config="MC_MuxSched (simulation)", behaviours=nb, schedules=len(sch), states_generated=nstates))
+                batches.append(("tlc-sched", out))
         # 3. every trace is validated by TLC against the trace specification
         for mode, out in batches:
             r = vlib.validate_batch("MuxTrace", "MuxTrace", out, timeout=3000)
